@@ -165,6 +165,31 @@ PMatchesCompiled = _mk_compiled("str_matches", "match")
 PContainsCompiled = _mk_compiled("str_contains", "search")
 
 
+class PUniqueValuesEq(_PLeaf):
+    """polars unique_values_eq against the spec of its pandas twin: true iff the set of values of the column - the missing value
+    counted as an element when a cell is missing - equals `values` (which holds no missing value)"""
+
+    target = f"{PMOD}:unique_values_eq"
+    argtypes = {"values": SetOf()}
+
+    def setup(self, I):
+        super().setup(I)
+        from contracts.C01_builtin_checks import install_set_model
+
+        install_set_model(I)
+
+    def ensures(self, result, old, data, values):
+        lf = cur().ghost["lf"]
+        col = lf.cols["a"]
+        xb = z3.Real(cur().fresh_name("xq"))
+        i = z3.Int(cur().fresh_name("i"))
+        occurs = z3.Exists([i], z3.And(lf.sel(i), z3.Not(col.null(i)), col.at(i).z == xb))
+        same = z3.ForAll([xb], occurs == core.as_z3_bool(values.member(core.SNum(xb))))
+        j = z3.Int(cur().fresh_name("j"))
+        some_null = z3.Exists([j], z3.And(lf.sel(j), col.null(j)))
+        return {"returns_a_bool": isinstance(result, (bool, SBool)), "set_equality": Iff(result, SBool(z3.And(same, z3.Not(some_null))))}
+
+
 class PStrLength(_PLeaf):
     target = f"{PMOD}:str_length"
     kind = "str"
@@ -189,6 +214,7 @@ TWINS = {
     "greater_than_or_equal_to": {"min_value": T.Ord}, "less_than": {"max_value": T.Ord}, "less_than_or_equal_to": {"max_value": T.Ord},
     "in_range": {"min_value": T.Ord, "max_value": T.Ord, "include_min": T.Bool, "include_max": T.Bool},
     "isin": {"allowed_values": SetOf()}, "notin": {"forbidden_values": SetOf()},
+    "unique_values_eq": {"values": SetOf()},
 }
 
 
@@ -198,14 +224,18 @@ def _twin(name, argtypes):
 
         target = f"{PMOD}:{name}"  # (hash anchor; both real call chains are executed in call_target)
         check_frame = False
-        split = {"ignore_na": [True, False]}
+        # missing: how the missing cells of the pandas column (NaN there) arrive in the polars frame - as nulls (pl.from_pandas, the
+        # default of every reader) or, in a float column, as the float value NaN (pl.DataFrame(dict_of_lists))
+        split = {"ignore_na": [True, False], "missing": ["null", "nan"]}
 
         def setup(self, I):
             PL.install(I)
             PP.install(I)
             from contracts.C19_check_options import install_groupby_head
+            from contracts.C01_builtin_checks import install_set_model
 
             install_groupby_head(I)
+            install_set_model(I)
 
         def make_args(self):
             a = {k: T.fresh_value(t, k) for k, t in argtypes.items()}
@@ -221,7 +251,10 @@ def _twin(name, argtypes):
             kwargs = {k: v for k, v in a.items() if k != "ignore_na"}
             s = SeriesVal.fresh("column", "real")
             # the same column as a polars frame: same row space, same values, same nulls
-            lf = PP.FrameP(s.space, {"a": PP.Col(s._at, s._null, "real")}, kind="LazyFrame", name="lf")
+            if self.fixed.get("missing", "null") == "nan":
+                lf = PP.FrameP(s.space, {"a": PP.Col(s._at, lambda i: z3.BoolVal(False), "real", nan=s._null)}, kind="LazyFrame", name="lf")
+            else:
+                lf = PP.FrameP(s.space, {"a": PP.Col(s._at, s._null, "real")}, kind="LazyFrame", name="lf")
 
             def chk():
                 return T.Ref(None, strict=True, groupby=T.Const(None), groups=T.Const(None), ignore_na=T.Const(ign), element_wise=T.Const(False),
@@ -250,4 +283,4 @@ def _twin(name, argtypes):
 
 TWIN_CONTRACTS = [_twin(n, t) for n, t in TWINS.items()]
 
-CONTRACTS = [PEq, PNe, PGt, PGe, PLt, PLe, PInRange, PIsIn, PNotIn, PStartsWith, PEndsWith, PContains, PMatches, PMatchesCompiled, PContainsCompiled, PStrLength] + TWIN_CONTRACTS
+CONTRACTS = [PEq, PNe, PGt, PGe, PLt, PLe, PInRange, PIsIn, PNotIn, PStartsWith, PEndsWith, PContains, PMatches, PMatchesCompiled, PContainsCompiled, PStrLength, PUniqueValuesEq] + TWIN_CONTRACTS
